@@ -1846,6 +1846,12 @@ class Interp:
         # nothing; public functions keep the allow-list (their names are interface and appear in the reference tables)
         if fn.node.get("vis") != "pub" and not fn.test:
             inline = True
+        # a constructor helper: an associated function without receiver that returns its own (crate) type —
+        # `CompileError::unsupported_test(x)` builds `CompileError::UnsupportedTest(format!("{x:?}"))`
+        if fn.impl is not None and not fn.impl.get("trait") and fn.node.get("self") is None and not fn.test:
+            own = norm_ty(fn.impl["self_ty"]).split("<")[0]
+            if out_ty in ("Self", own) and (own in self.f.enums or own in self.f.structs):
+                inline = True
         stack = getattr(self, "_callstack", [])
         if key in stack:
             return [(st, H("call", src(callnode), callee=key, args=argv, ty=out_ty, recursive=True))]
